@@ -75,6 +75,21 @@ func (e *Exec) RunFunction(fn *ssa.Function) (err error) {
 		fr.vals[fv] = v
 		e.assumeParam(st, fv.Type(), v)
 	}
+	if c := e.contractOf(fn); c != nil && c.Options["wf-entry-slices"] {
+		// memory-model fact about the entry heap: every slice stored in a slice-of-slices
+		// parameter's kind of array at entry was allocated before entry (the executed code
+		// gets the same fact per load from assumeLoaded)
+		seen := map[string]bool{}
+		for _, p := range fn.Params {
+			sl, ok := p.Type().Underlying().(*types.Slice)
+			if !ok || sortOf(sl.Elem()) != SSl || seen[arrComp(sl.Elem())] {
+				continue
+			}
+			seen[arrComp(sl.Elem())] = true
+			h := e.heapRead(st, arrComp(sl.Elem()), ArrSort(ArrSort(SSl)))
+			e.emit("(assert (forall ((a!w Int) (k!w Int)) (! (< (sl-id (select (select %s a!w) k!w)) %s) :pattern ((select (select %s a!w) k!w)))))", h.S, a0.S, h.S)
+		}
+	}
 	e.entry = st.clone()
 	if c := e.contractOf(fn); c != nil {
 		e.mustDefer(fn, st, c)
@@ -957,6 +972,23 @@ func (e *Exec) pureEval(fr *Frame, st *State, v ssa.Value, body map[*ssa.BasicBl
 // X[phi+c] with X fixed, propose "everything outside the written index range
 // is as before the loop" (both directions; Houdini keeps what is inductive).
 func (e *Exec) frameCandidates(fr *Frame, h *ssa.BasicBlock, phis []*ssa.Phi, initVals map[*ssa.Phi]Value, body map[*ssa.BasicBlock]bool, pre *State, ms *ModSet, add func(string, bool, func(map[*ssa.Phi]Value, *State) *Term)) {
+	if c := e.contractOf(e.Root); c != nil && c.Options["frame-arrays"] && !ms.All && fr.parent == nil {
+		// frame condition under proof: the arrays that existed at entry keep their entry contents
+		var ks []string
+		for k := range ms.Comps {
+			if strings.HasPrefix(k, "A_") && arrCompSort(k) != "" {
+				ks = append(ks, k)
+			}
+		}
+		sort.Strings(ks)
+		for _, k := range ks {
+			k := k
+			add("entry-rows:"+k, true, func(v map[*ssa.Phi]Value, st *State) *Term {
+				es := arrCompSort(k)
+				return e.frameRows(e.heapRead(st, k, ArrSort(ArrSort(es))), e.heapRead(e.entry, k, ArrSort(ArrSort(es))), e.heapRead(e.entry, "$alloc", SInt))
+			})
+		}
+	}
 	if ms.All {
 		return
 	}
@@ -984,7 +1016,7 @@ func (e *Exec) frameCandidates(fr *Frame, h *ssa.BasicBlock, phis []*ssa.Phi, in
 					continue
 				}
 				es := sortOf(sl.Elem())
-				comp := "A_" + sortKey(es)
+				comp := arrComp(sl.Elem())
 				found := false
 				for _, phi := range phis {
 					if base, off, ok := phiPlusConst(ia.Index, phi); ok && base {
